@@ -439,7 +439,7 @@ pub fn message_strategy(max_records: usize) -> BoxedStrategy<Message> {
 }
 
 #[derive(Clone, Debug)]
-enum Mutation {
+pub enum Mutation {
     FlipBit(usize, u8),
     SetByte(usize, u8),
     SetU16(usize, u16),
@@ -449,7 +449,7 @@ enum Mutation {
     HeaderCount(usize, u16),
 }
 
-fn mutation_strategy() -> BoxedStrategy<Mutation> {
+pub fn mutation_strategy() -> BoxedStrategy<Mutation> {
     let interesting16 = prop_oneof![
         Just(0u16),
         Just(1),
@@ -482,7 +482,7 @@ fn mutation_strategy() -> BoxedStrategy<Mutation> {
     .boxed()
 }
 
-fn apply(mut b: Vec<u8>, m: &Mutation) -> Vec<u8> {
+pub fn apply(mut b: Vec<u8>, m: &Mutation) -> Vec<u8> {
     let n = b.len();
     match m {
         Mutation::FlipBit(p, bit) if n > 0 => b[p % n] ^= 1 << bit,
